@@ -1082,8 +1082,11 @@ static bool canResend(ssl_t *ssl)
     }
     else
     {
-#if 0
-        /* Client tests */
+        /* Client tests: only on a flight boundary. In the middle of the
+           server's flight (expecting Certificate, ServerKeyExchange,
+           CertificateRequest or ServerHelloDone) the flight encoder has
+           no client flight to rebuild for that state and must not be
+           entered. */
         if (ssl->hsState == SSL_HS_SERVER_HELLO)
         {
             canSend = 1;
@@ -1099,9 +1102,6 @@ static bool canResend(ssl_t *ssl)
         {
             canSend = 1; /* Done is set on parse of peer FINISHED */
         }
-#else
-        canSend = 1;  /* Why wouldnt't it be safe to resend aways when in doubt */
-#endif
     }
     return canSend;
 }
